@@ -88,6 +88,7 @@ def sweep(u, unit_dir, scratch):
     found = []
     cur_fn = None
     seen = set()
+    seen_w = set()
     for line in text.split('\n'):
         s = line.strip()
         if s.startswith('//@@ fn '):
@@ -98,6 +99,10 @@ def sweep(u, unit_dir, scratch):
             seen.add((cur_fn, lab))
             w = _run(exe, lab, cur_fn)
             if w:
+                key = json.dumps(w, sort_keys=True)
+                if key in seen_w:
+                    continue        # the same failing input already reported under another clause
+                seen_w.add(key)
                 found.append(dict(fn=cur_fn, label=lab, witness=w))
     return found
 
